@@ -1,7 +1,7 @@
 PROP = {"engines": [("dpool", "default")],
         "level_text": "Coq theorems about the executable pool model (every block inside a page the pool owns and disjoint from all live blocks, a fixed pool never exceeds its "
                       "size, expansion leaves older pages untouched, padded blocks start on the boundary relative to the page payload, accounting, reset = one empty page of the "
-                      "initial size, reset/destroy release each page once) for all request sequences, sizes, factors and boundaries; bounds tests regenerated from the C source; "
+                      "initial size, reset/destroy release each page once) for all request sequences, sizes, factors and boundaries; bounds tests re-translated from the C source and proved equal to the model's; "
                       "model run against the compiled code with an independent overlap/ownership/alignment monitor in the harness.",
         "assumptions": ["the float product top_page_size * exp_factor is exact (dyadic factors, sizes < 2^24)",
                         "alignment is relative to the page payload, which starts 16 bytes into a block from the configured allocator: absolute alignment is guaranteed only for boundaries <= 16 (known finding for larger boundaries)",
